@@ -318,10 +318,22 @@ def rule_layer_roundtrip(rep, repo, table):
         for m in (ci.module.name, "qkeras.qlayers")})
     pe.opaque_ext = True
 
-    def base_init(pe_, a, k):
+    def base_init(pe_, a, k, rank=1 if "1D" in name else 2):
       me = pe_.external_super_self
+      k = dict(k)
+      # Keras normalises integer geometry arguments to one entry per
+      # spatial dimension (conv_utils.normalize_tuple) and serialises the
+      # normalised form; pooling strides default to the pool size
+      for kk in ("pool_size", "kernel_size", "strides", "dilation_rate"):
+        if isinstance(k.get(kk), int) and not isinstance(k[kk], bool):
+          k[kk] = (k[kk],) * rank
+      if "pool_size" in k and k.get("strides") is None:
+        k["strides"] = k["pool_size"]
       for kk, vv in k.items():
-        me.attrs.setdefault(kk, vv)
+        if kk in ("pool_size", "kernel_size", "strides", "dilation_rate"):
+          me.attrs[kk] = vv
+        else:
+          me.attrs.setdefault(kk, vv)
       # the Keras parent serialises what it was constructed with
       me.attrs["__base_config__"] = dict(k)
       if a and isinstance(a[0], Obj):
@@ -366,7 +378,9 @@ def rule_layer_roundtrip(rep, repo, table):
           pe.lookup_global("quantized_relu", qmod), [], dict(
               bits=5, integer=2, relu_upper_bound=F(3, 2),
               is_quantized_clip=False))
-    for p_, v_ in (("units", 4), ("filters", 8), ("kernel_size", (3, 3))):
+    # geometry given as bare integers (the common spelling)
+    for p_, v_ in (("units", 4), ("filters", 8), ("kernel_size", 3),
+                   ("pool_size", 3)):
       if p_ in params:
         kw[p_] = v_
     # array-valued options: a kernel mask for every kernel shape class
@@ -445,6 +459,23 @@ def rule_layer_roundtrip(rep, repo, table):
       attrs = ["quantizer"]
     elif "activation" in params:
       attrs.append("activation")
+    # everything the constructor derives from its arguments must come out
+    # the same when the layer is rebuilt from the (normalised) config
+    def plain(v):
+      if isinstance(v, (list, tuple)):
+        return all(plain(e) for e in v)
+      return v is None or isinstance(v, (bool, int, float, str, F))
+    diff = sorted(
+        a_ for a_ in set(o.attrs) | set(o2.attrs)
+        if not a_.startswith("__") and plain(o.attrs.get(a_)) and
+        plain(o2.attrs.get(a_)) and a_ in o.attrs and a_ in o2.attrs and
+        (list(o.attrs[a_]) if isinstance(o.attrs[a_], (list, tuple))
+         else o.attrs[a_]) != (list(o2.attrs[a_]) if isinstance(
+             o2.attrs[a_], (list, tuple)) else o2.attrs[a_]))
+    rep.check(not diff, "R5", unit, "derived-attribute-changed-by-round-trip",
+              "%s rebuilt from its own get_config() differs in %s" % (
+                  name, ["%s: %r -> %r" % (a_, o.attrs[a_], o2.attrs[a_])
+                         for a_ in diff]), loc=loc)
     for a in attrs:
       q1, q2 = o.attrs.get(a), o2.attrs.get(a)
       if a == "activation" and not isinstance(q1, Obj):
